@@ -257,6 +257,13 @@ class SymCtx:
     def fail(self, label, info=None):
         return self.check(False, label, info)
 
+    def le(self, a, b):
+        """a <= b (exact)"""
+        return alg.const(a) <= alg.const(b)
+
+    def ge(self, a, b):
+        return alg.const(a) >= alg.const(b)
+
     def is_zero(self, x):
         return alg.is_zero(x)
 
@@ -361,6 +368,13 @@ class ConcCtx:
 
     def fail(self, label, info=None):
         return self.check(False, label, info)
+
+    def le(self, a, b):
+        """a <= b up to the replay tolerance (float rounding is outside the claim)"""
+        return float(a) <= float(b) + self.tol
+
+    def ge(self, a, b):
+        return float(a) >= float(b) - self.tol
 
     def is_zero(self, x):
         return abs(complex(x)) <= self.tol
